@@ -4937,6 +4937,8 @@ EmitJmpCall:
 
           err = _code->add_address_to_address_table(jump_address);
           if (ASMJIT_UNLIKELY(err != Error::kOk)) {
+            // Nothing is emitted - the already registered relocation entry must not relocate anything.
+            re->_reloc_type = RelocType::kNone;
             goto Failed;
           }
 
